@@ -53,8 +53,27 @@ def freeze(el):
         if k in (f"{{{XSI}}}type", f"{{{XMI}}}type") and ":" in v:
             p = v.split(":", 1)[0]
             pref[p] = el.nsmap.get(p)
-    return (el.tag, tuple(sorted(el.items())), tuple(sorted(pref.items())), el.text or None, el.tail or None,
+    # formatting whitespace is not information: a run of XML blanks between two tags (a tail, or the text in front of the first child
+    # element) reads as None.  libxml2 drops such runs under remove_blank_text only while they are shorter than its 300-character
+    # buffer, so below ~150 levels of nesting the indentation written by save() comes back as tails; the writer ignores blank tails
+    # (a reloaded deep model saves byte-identically).  Leaf text is compared verbatim.
+    text, tail = el.text or None, el.tail or None
+    if tail is not None and not tail.strip(" \t\r\n"):
+        tail = None
+    if text is not None and len(el) and not text.strip(" \t\r\n"):
+        text = None
+    return (el.tag, tuple(sorted(el.items())), tuple(sorted(pref.items())), text, tail,
             tuple(freeze(c) for c in el))
+
+
+class deep_recursion:
+    """the snapshot/compare functions recurse over (deliberately deep) trees; the interpreter's limit is raised around the oracle
+    only, never around calls into the implementation (whose own behaviour under the default limit is part of what is observed)"""
+    def __enter__(self):
+        self.old = sys.getrecursionlimit()
+        sys.setrecursionlimit(max(self.old, 100_000))
+    def __exit__(self, *a):
+        sys.setrecursionlimit(self.old)
 
 
 def frozen_doc(root):
@@ -127,6 +146,10 @@ def pick(model, r, *classes):
     return None
 
 
+VIEWPOINTS = ["org.polarsys.kitalpha.vp.requirements", "org.polarsys.capella.vp.requirements", "org.polarsys.capella.vp.ms",
+              "org.polarsys.capella.vp.price", "org.polarsys.capella.vp.mass", "org.polarsys.capella.vp.perfo", "org.polarsys.capella.basic.vp"]
+FILTERS = ["hide.functional.exchanges.names.filter", "show.exchange.items.on.functional.exchanges.filter", "hide.component.ports.filter",
+           "collapse.pure.sub.functions.filter", "hide.allocated.functional.exchanges.filter", "ModelExtensionFilter"]
 FUNC = ("LogicalFunction", "SystemFunction", "OperationalActivity", "PhysicalFunction")
 COMP = ("LogicalComponent", "SystemComponent", "PhysicalComponent", "Entity")
 
@@ -134,7 +157,9 @@ COMP = ("LogicalComponent", "SystemComponent", "PhysicalComponent", "Entity")
 def do_op(model, r: random.Random, neutral, created: list, log: list):
     op = r.choice(["set_name", "set_name", "set_desc", "set_summary", "create_fn", "create_comp", "create_constraint", "create_class",
                    "create_pv", "create_scenario", "create_reqmodule", "delete", "move", "ref_set", "spec_set", "spec_set", "spec_lang", "spec_del",
-                   "create_exchange", "set_root", "set_root"])
+                   "create_exchange", "set_root", "set_root",
+                   # operations that edit the OTHER files of the primary resource: metadata (.afm) and visual (.aird/.airdfragment)
+                   "activate_vp", "activate_vp", "diag_name", "diag_desc", "diag_filter", "diag_filter"])
     S = lambda: legal_string(r, neutral)
     log.append(op)
     if op in ("set_name", "set_desc", "set_summary"):
@@ -165,6 +190,38 @@ def do_op(model, r: random.Random, neutral, created: list, log: list):
         v = S()
         setattr(o, attr, v)
         log[-1] = ({"name": "set_name", "summary": "set_summary", "description": "set_desc"}[attr], uid, v)
+    elif op == "activate_vp":
+        have = dict(model.referenced_viewpoints())
+        mode = r.random()
+        if mode < 0.45:
+            name = r.choice(VIEWPOINTS)
+        elif mode < 0.6 and have:
+            name = r.choice(sorted(have))                      # already active: same version is a no-op, another one is refused
+        else:
+            name = "vp." + S()
+        version = have[name] if name in have and r.random() < 0.5 else r.choice(["0.12.2", "1.0.0", "5.2.0", "0", "1.2.3.qualifier", S()])
+        log[-1] = (op, name, version)
+        model.activate_viewpoint(name, version)
+    elif op in ("diag_name", "diag_desc", "diag_filter"):
+        ds = [d for d in model.diagrams if is_primary(model, d)]
+        if not ds:
+            return
+        d = ds[r.randrange(len(ds))]
+        if op == "diag_name":
+            v = S()
+            d.name = v
+            log[-1] = (op, d.uuid, v)
+        elif op == "diag_desc":
+            v = S()
+            d.description = v
+            log[-1] = (op, d.uuid, v)
+        else:
+            cur = sorted(d.filters)
+            if cur and r.random() < 0.4:
+                d.filters.discard(r.choice(cur))
+            else:
+                d.filters.add(r.choice(FILTERS + ["f." + "".join(r.choice("abcXYZ .-_09") for _ in range(r.randrange(1, 12)))]))
+            log[-1] = (op, d.uuid, sorted(d.filters))
     elif op == "create_fn":
         p = pick(model, r, *FUNC)
         o = p.functions.create(name=S()) if hasattr(p, "functions") else p.activities.create(name=S())
@@ -261,6 +318,8 @@ class Outcome:
         self.file_cases: list = []
         self.created = 0
         self.strings: list[str] = []
+        self.kinds: dict = {}
+        self.extremes: dict = {}
 
 
 def semantic_inputs(loader, core, helpers, ns_mod):
@@ -306,6 +365,41 @@ def do_directed(model, kind: str, value: str, index: int, log: list, created: li
         o.name = value
         o.description = value
         log.append(("set_name", o.uuid, value))
+    elif kind == "deep":
+        # value = "<container>:<levels>": a chain of creations, each inside the previous one
+        where, _, n = value.partition(":")
+        if where == "fn":
+            o = model.la.root_function
+            step = lambda o, i: o.functions.create(name=f"level {i}")
+        elif where == "comp":
+            o = model.la.root_component
+            step = lambda o, i: o.components.create(name=f"level {i}")
+        elif where == "pkg":
+            o = model.la.data_package
+            step = lambda o, i: o.packages.create(name=f"level {i}")
+        else:
+            o = model.sa.root_function
+            step = lambda o, i: o.functions.create(name=f"level {i}")
+        for i in range(int(n)):
+            o = step(o, i)
+        created.append(o)
+        log.append(("deep", where, int(n), o.uuid))
+    elif kind == "long":
+        # value = "<place>:<chars>:<alphabet>": one very long value in an attribute or in element text
+        where, n, alpha = value.split(":", 2)
+        n = int(n)
+        big = (alpha * (n // len(alpha) + 1))[:n]
+        if where == "pv":
+            o = model.la.root_component.property_values.create("StringPropertyValue", name="generated", value=big)
+        elif where == "desc":
+            o = model.la.root_function
+            o.description = big
+        elif where == "name":
+            o = model.la.root_function.functions.create(name=big)
+        else:   # element text: the body of an opaque expression
+            o = model.la.root_function.constraints.create(name="long body")
+            o.specification["Python"] = big
+        log.append(("long", where, n, o.uuid, hashlib.sha256(big.encode()).hexdigest()))
     elif kind == "involve":
         cap = model.la.capability_package.capabilities.create(name=value)
         f = model.la.root_function.functions.create(name=value)
@@ -360,7 +454,8 @@ def run_history(spec, seed: int, neutral: frozenset, skip_ops: frozenset, *, tie
             # ---- save
             loader = model._loader
             primary = {f: t for f, t in loader.trees.items() if f.parts[0] == "\0"}
-            snap = {f: frozen_doc(t.root) for f, t in primary.items()}
+            with deep_recursion():
+                snap = {f: frozen_doc(t.root) for f, t in primary.items()}
             ns_in = semantic_inputs(loader, core, helpers, ns_mod) if want_corr else {}
             try:
                 model.save()
@@ -382,13 +477,33 @@ def run_history(spec, seed: int, neutral: frozenset, skip_ops: frozenset, *, tie
                 if type(save_err).__name__ != "CorruptModelError":
                     out.problems.append(f"save() raises {type(save_err).__name__}: {str(save_err)[:200]}")
                 break
-            after = {f: frozen_doc(t.root) for f, t in primary.items()}
+            with deep_recursion():
+                after = {f: frozen_doc(t.root) for f, t in primary.items()}
             # ---- reload with a fresh model
             try:
                 m2 = capellambse.MelodyModel(str(entry), **kw)
             except Exception as e:  # noqa: BLE001
                 out.problems.append(f"reload fails: {type(e).__name__}: {str(e)[:200]}")
                 break
+            # every file the loader holds for the primary resource (semantic, visual, metadata) is there again
+            re_files = {f for f in m2._loader.trees if f.parts[0] == "\0"}
+            if re_files != set(primary):
+                out.problems.append(f"files of the primary resource differ after reload: only in memory {sorted(map(str, set(primary) - re_files))}, "
+                                    f"only reloaded {sorted(map(str, re_files - set(primary)))}")
+            kinds = {}
+            for f in primary:
+                kinds[f.suffix] = kinds.get(f.suffix, 0) + 1
+            out.kinds = kinds
+            # the metadata as an independent raw scan of the in-memory .afm vs. the reloaded model's answers
+            mem_vps = sorted((e.get("vpId"), e.get("version")) for f, t in primary.items() if f.suffix == ".afm"
+                             for e in t.root.iter("viewpointReferences"))
+            try:
+                got_vps = sorted(dict(m2.referenced_viewpoints()).items())
+                info_vps = sorted(dict(m2.info.viewpoints).items())
+            except Exception as e:  # noqa: BLE001
+                got_vps = info_vps = f"{type(e).__name__}: {e}"
+            if len({k for k, _ in mem_vps}) == len(mem_vps) and (got_vps != mem_vps or info_vps != mem_vps):
+                out.problems.append(f"viewpoints: in memory {mem_vps}, referenced_viewpoints() after reload {got_vps}, info.viewpoints {info_vps}")
             for f, t in m2._loader.trees.items():
                 if f.parts[0] != "\0":
                     continue
@@ -401,16 +516,18 @@ def run_history(spec, seed: int, neutral: frozenset, skip_ops: frozenset, *, tie
                         vers.setdefault(mm.group(1), []).append(p_)
                 if len(vers) > 1:
                     out.problems.append(f"{f.name}: namespace versions disagree after save: { {k: v[:2] for k, v in vers.items()} }")
-                fz = frozen_doc(t.root)
+                with deep_recursion():
+                    fz = frozen_doc(t.root)
                 for label, mem in (("memory before save", snap.get(f)), ("memory after save", after.get(f))):
                     if mem is None:
                         out.problems.append(f"{f}: fragment not in memory")
                         continue
                     if mem[0] != fz[0] or mem[2] != fz[2]:
                         out.problems.append(f"{f}: comments around the root differ ({label})")
-                    d = frozen_diff(mem[1], fz[1])
+                    with deep_recursion():
+                        d = frozen_diff(mem[1], fz[1])
                     if d:
-                        out.problems.append(f"{f.name} [{label}]: " + "; ".join(d[:2]))
+                        out.problems.append(f"{f.name} [{label}]: " + "; ".join(x if len(x) < 700 else x[:200] + " [...] " + x[-400:] for x in d[:2]))
                         break
             # queries answer the same: the objects touched in this history
             for entry_ in out.ops:
@@ -421,6 +538,42 @@ def run_history(spec, seed: int, neutral: frozenset, skip_ops: frozenset, *, tie
                         for attr in ("name", "description", "summary"):
                             if str(getattr(a, attr)) != str(getattr(b, attr)):
                                 out.problems.append(f"{uid}.{attr}: {str(getattr(a, attr))!r} in memory, {str(getattr(b, attr))!r} after reload")
+                    except KeyError:
+                        pass
+                elif isinstance(entry_, tuple) and entry_[0] == "deep":
+                    _, where, n, uid = entry_
+                    try:
+                        el = m2._loader[uid]
+                        chain = 0
+                        while el is not None and el.get("name", "").startswith("level "):
+                            chain += 1
+                            el = el.getparent()
+                        b = m2.by_uuid(uid)
+                        if chain != n or b.name != f"level {n - 1}":
+                            out.problems.append(f"deep nesting ({where}): {n} levels created, {chain} levels above the innermost element after reload, its name {b.name!r}")
+                        out.extremes[f"deep:{where}"] = max(out.extremes.get(f"deep:{where}", 0), sum(1 for _ in m2._loader[uid].iterancestors()) + 1)
+                    except KeyError:
+                        out.problems.append(f"deep nesting ({where}): innermost element {uid} not found after reload")
+                elif isinstance(entry_, tuple) and entry_[0] == "long":
+                    _, where, n, uid, digest = entry_
+                    try:
+                        b = m2.by_uuid(uid)
+                        got = {"pv": lambda: b.value, "desc": lambda: b.description, "name": lambda: b.name, "text": lambda: b.specification["Python"]}[where]()
+                        got = str(got)
+                        if len(got) != n or hashlib.sha256(got.encode()).hexdigest() != digest:
+                            out.problems.append(f"long value ({where}): {n} characters written, {len(got)} read back after reload (sha256 {'same' if hashlib.sha256(got.encode()).hexdigest() == digest else 'differs'})")
+                        out.extremes[f"long:{where}"] = max(out.extremes.get(f"long:{where}", 0), n)
+                    except KeyError:
+                        out.problems.append(f"long value ({where}): element {uid} not found after reload")
+                elif isinstance(entry_, tuple) and entry_[0] in ("diag_name", "diag_desc", "diag_filter") and len(entry_) == 3:
+                    _, uid, v = entry_
+                    try:
+                        a, b = model.diagrams.by_uuid(uid), m2.diagrams.by_uuid(uid)
+                        for attr in ("name", "description"):
+                            if str(getattr(a, attr)) != str(getattr(b, attr)):
+                                out.problems.append(f"diagram {uid}.{attr}: {str(getattr(a, attr))!r} in memory, {str(getattr(b, attr))!r} after reload")
+                        if sorted(a.filters) != sorted(b.filters):
+                            out.problems.append(f"diagram {uid}.filters: {sorted(a.filters)!r} in memory, {sorted(b.filters)!r} after reload")
                     except KeyError:
                         pass
                 elif isinstance(entry_, tuple) and entry_[0] in ("spec_set", "spec_lang"):
@@ -509,7 +662,7 @@ def run(chk: lib.Check):
         plan.append((big[i % len(big)], rng.getrandbits(40)))
     ns_cases, file_cases = [], []
     stats = {"histories": 0, "ops": {}, "rejected_ops": {}, "created": 0, "saves_refused": 0, "skipped_after_rejected_op": 0,
-             "ns_root_replaced": 0, "ns_root_kept": 0}
+             "ns_root_replaced": 0, "ns_root_kept": 0, "files_compared": {}, "extremes": {}}
     deadline = t0 + (120 if quick else 1400)
     # directed histories: every class of special string in a specification body / language / name once, and the
     # two namespace-requiring creations on the model that does not declare those namespaces
@@ -521,6 +674,22 @@ def run(chk: lib.Check):
         (big[0], [("spec_body", s_) for s_ in specials] + [("spec_lang", s_) for s_ in specials[:6]] + [("name", s_) for s_ in specials + [" ", "]]>", "\n"]]),
         (small[0], [("involve", "n1"), ("name", "a ]]> b"), ("name", " ")]),
     ]
+    # extremes (on the small write-test model): nesting hundreds of levels deep created through the API, single values of more
+    # than 10 MB in an attribute and in element text -- the API accepts them, save() writes them, so they must load again
+    wt = next((s_ for s_ in small if s_["path"].name == "WriteTestModel.aird"), small[-1])
+    alph = ["QUJD", "ab c", "x", "é😀 y", "a&<b"]
+    places_deep, places_long = ["fn", "comp", "pkg", "sa"], ["pv", "text", "desc", "name"]
+    rng.shuffle(places_deep)
+    rng.shuffle(places_long)
+    xplan = []
+    for i in range(2 if quick else 8):
+        xplan.append((wt, [("deep", f"{places_deep[i % 4]}:{rng.randrange(258, 300) if i == 0 else rng.randrange(300, 900)}")]))
+    att, txt = [p_ for p_ in places_long if p_ != "text"], "text"
+    for i, pl in enumerate(([att[0], txt] if quick else places_long * 2)):
+        xplan.append((wt, [("long", f"{pl}:{10_000_000 + rng.randrange(1, 900_000)}:{alph[rng.randrange(len(alph))]}")]))
+    if not quick:
+        xplan.append((wt, [("long", f"pv:{rng.randrange(30_000_000, 50_000_000)}:x")]))
+    dplan += xplan
     if not quick:
         dplan += [(b_, d_) for b_ in big[1:] for _, d_ in dplan[:3]] + [(s_, dplan[3][1]) for s_ in small[1:]]
     plan = [(sp_, 1000 + i, d_) for i, (sp_, d_) in enumerate(dplan)] + [(sp_, sd_, ()) for sp_, sd_ in plan]
@@ -535,6 +704,10 @@ def run(chk: lib.Check):
             continue
         stats["histories"] += 1
         stats["created"] += out.created
+        for k_, v_ in out.kinds.items():
+            stats["files_compared"][k_] = stats["files_compared"].get(k_, 0) + v_
+        for k_, v_ in out.extremes.items():
+            stats["extremes"][k_] = max(stats["extremes"].get(k_, 0), v_)
         for e in out.ops:
             k = e[0] if isinstance(e, tuple) else e
             stats["ops"][k] = stats["ops"].get(k, 0) + 1
